@@ -178,6 +178,9 @@ func genC16(r *common.RNG, id string) (*Case, *c16Expect) {
 	classy := r.Chance(2, 5)
 	ex := &c16Expect{Updates: map[string]string{}, Known: true}
 	n := 1 + r.Intn(5)
+	if r.Chance(1, 14) {
+		n = 0 // no golden entry at all: an UpdateScripts run that has nothing to compare
+	}
 	golden := map[string]string{}
 	isEntry := map[string]bool{}
 	var order []string
@@ -354,6 +357,13 @@ func genC16(r *common.RNG, id string) (*Case, *c16Expect) {
 		c.Lines = append(c.Lines, pick(r, []string{"stop", "skip"}))
 		phase(1, 4)
 	}
+	if len(c.Lines) == 0 {
+		c.Lines = append(c.Lines, "exec "+helperName+" echo nothing to compare")
+	}
+	// the file as an editor or another tool may have left it: same Parse, not Format's spelling
+	if r.Chance(1, 2) {
+		c = nonCanonical(r, c)
+	}
 	return c, ex
 }
 
@@ -441,7 +451,10 @@ func (rn *runner) c16Oracle(c *Case, ex *c16Expect, o *Obs) (string, string) {
 		return d, fmt.Sprintf("expected updates %q", ex.Updates)
 	}
 	if len(ex.Updates) == 0 && !bytes.Equal(o.FileAfter, c.fileBytes()) {
-		return "file-rewritten-without-update", ""
+		return "file-rewritten-without-update", fmt.Sprintf("no cmp recorded an update, yet the bytes of the script file changed: before %q, after %q", c.fileBytes(), o.FileAfter)
+	}
+	if len(ex.Updates) == 0 && o.Written {
+		return "file-written-without-update", "no cmp recorded an update, yet the script file was written (same bytes, new modification time)"
 	}
 	wantVerdict := "pass"
 	if len(ex.FailLines) > 0 {
@@ -476,8 +489,9 @@ func (rn *runner) c16Oracle(c *Case, ex *c16Expect, o *Obs) (string, string) {
 		for _, f := range a.Files {
 			c2.Files = append(c2.Files, AFile{Name: f.Name, Data: string(f.Data)})
 		}
+		c2.RawHex = ""
 		if !bytes.Equal(c2.fileBytes(), o.FileAfter) {
-			return "", "" // not reproducible through Case (should not happen)
+			c2.RawHex = common.Hex(o.FileAfter) // a file left alone keeps its own spelling
 		}
 		r2 := rn.run(&c2)
 		// does the proved restricted fix-point (C16_rerun_fixpoint_covered) apply to this case?
@@ -497,7 +511,7 @@ func (rn *runner) c16Oracle(c *Case, ex *c16Expect, o *Obs) (string, string) {
 		if r2.o.Verdict != wantVerdict {
 			return "rerun-verdict", fmt.Sprintf("second run without UpdateScripts: want %s, got %s\n%s", wantVerdict, r2.o.Verdict, tail(r2.o.Log, 600))
 		}
-		if !bytes.Equal(r2.o.FileAfter, o.FileAfter) {
+		if !bytes.Equal(r2.o.FileAfter, o.FileAfter) || r2.o.Written {
 			return "rerun-changed-file", ""
 		}
 		if d := corrDiff(&c2, r2.o, r2.m); d != "" {
@@ -515,6 +529,12 @@ func (rn *runner) c16Judge(c *Case, ex *c16Expect) {
 	o, m := oc.o, oc.m
 	rn.count("c16:update-run-verdict:" + o.Verdict)
 	rn.count(fmt.Sprintf("c16:entries=%d", len(c.Files)))
+	if c.RawHex != "" {
+		rn.count("c16:script-file-not-canonical")
+	}
+	if o.Written {
+		rn.count("c16:file-written")
+	}
 	if ex != nil {
 		rn.count(fmt.Sprintf("c16:expected-updates=%d", len(ex.Updates)))
 		if len(ex.FailLines) > 0 {
@@ -586,6 +606,11 @@ func (rn *runner) c16Main() {
 	f := rn.f
 	for _, c := range loadCorpus(f.Corpus) {
 		c.Upd = true
+		if strings.HasPrefix(c.Note, "no-update") {
+			// hand-written: every comparison of the script agrees, nothing may be recorded or written
+			rn.c16Judge(c, &c16Expect{Updates: map[string]string{}, Known: true, Rerun: true})
+			continue
+		}
 		rn.c16Judge(c, nil)
 	}
 	r := common.NewRNG(f.Seed).Fork()
